@@ -73,6 +73,9 @@ pub struct Net {
     pub dgram_rx: VecDeque<Bytes>,
     pub dgram_rx_waker: Option<Waker>,
     pub dgram_tx: Vec<Vec<u8>>,
+    /// test hook: called by `poll_accept_bidi` before it looks at the queue; `Some(e)` makes the
+    /// call fail with `e` (used by the C05 engine to stop the driver inside the transport)
+    pub accept_bidi_gate: Option<Box<dyn FnMut() -> Option<ConnectionErrorIncoming>>>,
 }
 pub type NetRef = Rc<RefCell<Net>>;
 
@@ -267,6 +270,14 @@ impl quic::Connection<Bytes> for SimConn {
         }
     }
     fn poll_accept_bidi(&mut self, cx: &mut Context<'_>) -> Poll<Result<SimStream, ConnectionErrorIncoming>> {
+        let gate = self.net.borrow_mut().accept_bidi_gate.take();
+        if let Some(mut g) = gate {
+            let r = g();
+            self.net.borrow_mut().accept_bidi_gate = Some(g);
+            if let Some(e) = r {
+                return Poll::Ready(Err(e));
+            }
+        }
         if let Some(e) = conn_err(&self.net) {
             return Poll::Ready(Err(e));
         }
